@@ -751,8 +751,41 @@ class Evaluator(abc.ABC):
                 writer = csv.DictWriter(fp, self._columns_dumped, extrasaction="ignore")
                 writer.writeheader()
                 writer.writerows(rows)
+            if os.path.exists(path):
+                # The file was written by someone else since this evaluator was created (e.g.,
+                # another search using the same directory): it is kept under an other name.
+                path_renamed = Evaluator.rename_existing_file(path)
+                logging.warning(f"File {path} already exists, it was renamed to {path_renamed}")
             os.replace(path_tmp, path)
             self._start_dumping = True
+
+    @staticmethod
+    def rename_existing_file(path: str) -> str:
+        """Rename an existing file by adding the current time to its name.
+
+        The time has a resolution of one second: a counter is also added to the name if it is
+        already taken so that a file which exists is never overwritten by the renaming. For
+        example, ``results.csv`` is renamed to ``results_20240101-120000.csv`` and if this name
+        is taken to ``results_20240101-120000_1.csv``.
+
+        Args:
+            path (str): the path of the file to rename.
+
+        Returns:
+            str: the new path of the file.
+        """
+        str_current_time = time.strftime("%Y%m%d-%H%M%S")
+        dirname = os.path.dirname(path)
+        basename = os.path.basename(path)
+        path_renamed = os.path.join(dirname, basename.replace(".", f"_{str_current_time}."))
+        count_renamed = 0
+        while os.path.exists(path_renamed):
+            count_renamed += 1
+            path_renamed = os.path.join(
+                dirname, basename.replace(".", f"_{str_current_time}_{count_renamed}.")
+            )
+        os.rename(path, path_renamed)
+        return path_renamed
 
     def dump_evals(self, log_dir: str = ".", filename="results.csv", flush: bool = False):
         deprecated_api(
